@@ -33,6 +33,8 @@ CLASSIFY_BENIGN = """            if isinstance(child, UnknownNode):
                         filekids.append(entry)
 """
 
+ENTER_OLD = "        d = defer.maybeDeferred(walker.enter_directory, parent, children)\n"
+
 FILE_CB_OLD = """        for i, (child, childpath) in enumerate(filekids):
             d.addCallback(lambda ignored, child=child, childpath=childpath:
                           walker.add_node(child, childpath))
@@ -240,6 +242,40 @@ MUTANTS = [
     M("benign-manifest-local-cap", F,
       "        self.manifest.append( (tuple(path), node.get_uri()) )",
       "        entry = (tuple(path), node.get_uri())\n        self.manifest.append(entry)", None),
+    # ---- C21.8 no child is skipped on a fact about other children
+    M("fastpath-all-children-seen", F, ENTER_OLD, ENTER_OLD +
+      "        if children and not any(isinstance(child, UnknownNode)\n"
+      "                                for (child, metadata) in children.values()):\n"
+      "            if found.issuperset(child.get_verify_cap()\n"
+      "                                for (child, metadata) in children.values()):\n"
+      "                return d\n", "C21.8"),
+    M("fastpath-all-seen-flag", F, ENTER_OLD, ENTER_OLD +
+      "        unseen = [n for (n, (c, m)) in children.items()\n"
+      "                  if isinstance(c, UnknownNode) or c.get_verify_cap() not in found]\n"
+      "        if len(unseen) == 0:\n"
+      "            return d\n", "C21.8"),
+    M("fastpath-leaf-directory-returns-before-files", F,
+      "        for i, (child, childpath) in enumerate(filekids):\n",
+      "        if not dirkids:\n            # leaf directory: nothing to recurse into\n            return d\n"
+      "        for i, (child, childpath) in enumerate(filekids):\n", "C21.8"),
+    M("listing-prefiltered-by-found", F, ENTER_OLD, ENTER_OLD +
+      "        children = dict((n, cm) for (n, cm) in children.items()\n"
+      "                        if isinstance(cm[0], UnknownNode) or cm[0].get_verify_cap() not in found)\n", "C21.8"),
+    M("queued-lit-files-dropped", F,
+      "        for i, (child, childpath) in enumerate(filekids):\n",
+      "        filekids = [fk for fk in filekids if fk[0].get_verify_cap() is not None]\n"
+      "        for i, (child, childpath) in enumerate(filekids):\n", "C21.8"),
+    M("found-superset-decides-skip", F,
+      "            if (verifier is not None) and (verifier in found):\n                continue\n",
+      "            if found.issuperset([verifier]):\n                continue\n", ["C21.8"]),
+    M("benign-empty-listing-returns-early", F, ENTER_OLD, ENTER_OLD +
+      "        if not children:\n            return d\n", None),
+    M("benign-listing-hoisted-no-subdirs-return", F,
+      "        for name, (child, metadata) in sorted(children.items()):\n",
+      "        listing = sorted(children.items())\n        for name, (child, metadata) in listing:\n", None,
+      edits=[(F, "        for (child, childpath) in dirkids:\n            d.addCallback(lambda ignored, child=child, childpath=childpath:\n",
+              "        if len(dirkids) == 0:\n            return d\n"
+              "        for (child, childpath) in dirkids:\n            d.addCallback(lambda ignored, child=child, childpath=childpath:\n")]),
     # ---- vanished anchors
     M("vanish-children-walk", F, "    def _deep_traverse_dirnode_children(self, children, parent, path,",
       "    def _walk_children(self, children, parent, path,", "ANALYSIS-ERROR",
